@@ -188,7 +188,9 @@ func makers() []storeMaker {
 		func() (string, raft.LogStore, raft.LogStore) { return "plain", newFstore("", 0), newFstore("", 0) },
 		func() (string, raft.LogStore, raft.LogStore) { return "inmem", raft.NewInmemStore(), raft.NewInmemStore() },
 	}
-	for _, k := range []string{"store", "del", "get"} {
+	// Read failures are not injected: a cache hit legitimately answers without
+	// asking the backend, so "the n-th backend read fails" is not comparable.
+	for _, k := range []string{"store", "del"} {
 		for at := 1; at <= 2; at++ {
 			k, at := k, at
 			ms = append(ms, func() (string, raft.LogStore, raft.LogStore) {
